@@ -1,6 +1,7 @@
 package sim
 
 import (
+	"os"
 	"context"
 	"fmt"
 	"sort"
@@ -376,8 +377,17 @@ func c08Cfg(t *testing.T, tape *Tape, key string, body func(r *Run)) RunCfg {
 		profMu.Unlock()
 	}
 	cfg := RunCfg{MaxOps: 60000, MaxDecisions: 8000}
-	strategy := tape.Choose(4)
+	strategy := tape.Choose(5)
 	switch strategy {
+	case 4: // preemption between a callee's exit (deferred calls included) and the delivery of its results
+		cfg.QuantumMax = [...]int{0, 2, 6}[tape.Choose(3)]
+		for i, st := range interp.VerifSites {
+			if st.Kind == "stmt-after-run" {
+				cfg.HotSites = append(cfg.HotSites, i)
+			}
+		}
+		cfg.YieldBudget = [...]int{10, 40, 120, 400}[tape.Choose(4)]
+		cfg.YieldSkip = [...]int{0, 0, 30, 300, 3000}[tape.Choose(5)]
 	case 0: // run to block, rare preemption
 		cfg.QuantumMax = 0
 	case 1: // random walk at operation boundaries
@@ -391,12 +401,35 @@ func c08Cfg(t *testing.T, tape *Tape, key string, body func(r *Run)) RunCfg {
 			}
 		}
 		cfg.YieldBudget = [...]int{10, 40, 120, 400}[tape.Choose(4)]
+		// let a drawn number of hot-site hits pass first, so that the budget is
+		// not always spent at the beginning of the run
+		cfg.YieldSkip = [...]int{0, 0, 30, 300, 3000}[tape.Choose(5)]
 		if strategy == 3 {
 			cfg.StallMax = 2 + tape.Choose(6)
 		}
 	}
 	cfg.StartDelay = true
 	cfg.SelSeed = uint64(tape.Choose(1 << 16))
+	if hl := os.Getenv("VERIF_HOT_LINES"); hl != "" {
+		// development aid: force the statement sites of the given source lines
+		// ("run.go:1493,run.go:1495") to be hot in every run
+		for _, it := range strings.Split(hl, ",") {
+			var file string
+			var line int
+			if i := strings.IndexByte(it, ':'); i > 0 {
+				file = it[:i]
+				fmt.Sscan(it[i+1:], &line)
+			}
+			for i, st := range interp.VerifSites {
+				if st.File == file && st.Line == line {
+					cfg.HotSites = append(cfg.HotSites, i)
+				}
+			}
+		}
+		if cfg.YieldBudget == 0 {
+			cfg.YieldBudget = 200
+		}
+	}
 	return cfg
 }
 
